@@ -332,6 +332,156 @@ fn signal_case_calls(n_out: usize, wrapper: usize, calls: usize) -> Option<Bad> 
     None
 }
 
+/// Buffer content classes ("arbitrary buffer contents"): value of sample `t` on call `c`.
+const CLASSES: [&str; 11] = ["zeros", "tiny (below f32::EPSILON)", "subnormal", "tiny with one ordinary sample", "ordinary", "ordinary negative", "huge", "negative zeros", "tiny negative", "infinities", "NaN payloads"];
+fn class_val(class: u8, t: usize, c: usize) -> f32 {
+    let k = (t + 1 + 3 * c) as f32;
+    match class {
+        0 => 0.0,
+        1 => k * 2f32.powi(-40),
+        2 => f32::from_bits((t + 1 + c) as u32),
+        3 => {
+            if t == 17 {
+                0.5
+            } else {
+                k * 2f32.powi(-40)
+            }
+        }
+        4 => k / 64.0,
+        5 => -k / 32.0,
+        6 => k * 2f32.powi(100),
+        7 => -0.0,
+        8 => -k * 2f32.powi(-41),
+        9 => {
+            if t % 2 == 0 {
+                f32::INFINITY
+            } else {
+                f32::NEG_INFINITY
+            }
+        }
+        _ => f32::from_bits(0x7fc0_0000 | (t as u32 + 1)),
+    }
+}
+struct Raw(Vec<u8>, usize);
+impl Node for Raw {
+    fn process(&mut self, _inputs: &[Input], output: &mut [Buffer]) {
+        for (b, o) in output.iter_mut().enumerate() {
+            for t in 0..LEN {
+                o[t] = class_val(self.0[b], t, self.1);
+            }
+        }
+        self.1 += 1;
+    }
+}
+
+/// every value a sequential f32 summation of `terms` (in some order, starting from silence) can give
+fn sums_any_order(terms: &[f32]) -> Vec<f32> {
+    fn rec(rest: &mut Vec<f32>, acc: f32, out: &mut Vec<f32>) {
+        if rest.is_empty() {
+            if !out.iter().any(|o| o.to_bits() == acc.to_bits()) {
+                out.push(acc);
+            }
+            return;
+        }
+        for i in 0..rest.len() {
+            let x = rest.remove(i);
+            rec(rest, acc + x, out);
+            rest.insert(i, x);
+        }
+    }
+    let mut out = Vec::new();
+    rec(&mut terms.to_vec(), 0.0, &mut out);
+    out
+}
+
+/// One node fed buffers of the given content classes (`classes[input][buffer]`), two calls.
+/// Sum / SumBuffers: the output must be a sum of ALL terms (any order of f32 additions accepted,
+/// the sign of a zero result left open); Pass / Delay: bit-for-bit copies.
+fn content_case(kind: &str, wrapper: usize, classes: &[Vec<u8>], ring: usize) -> Option<Bad> {
+    let tag = format!("{kind} ({}) fed buffers of classes {:?}", ["plain", "BoxedNode", "fn pointer / Box<dyn FnMut>"][wrapper], classes.iter().map(|c| c.iter().map(|&x| CLASSES[x as usize]).collect::<Vec<_>>()).collect::<Vec<_>>());
+    let n_out = classes.iter().map(|c| c.len()).max().unwrap_or(1).max(1);
+    let mut g: G = Graph::with_capacity(8, 8);
+    let srcs: Vec<NodeIndex> = classes.iter().map(|c| g.add_node(NodeData::new(Box::new(Raw(c.clone(), 0)) as DynNode, sentinel_bufs(c.len())))).collect();
+    let ring0 = |ch: usize| -> Vec<f32> { (0..ring).map(|i| class_val(((ch + i) % 11) as u8, i % LEN, 5)).collect() };
+    let node: DynNode = match (kind, wrapper) {
+        ("Sum", 0) => Box::new(Sum),
+        ("Sum", 1) => Box::new(BoxedNode::new(Sum)),
+        ("Sum", _) => Box::new((|i: &[Input], o: &mut [Buffer]| Sum.process(i, o)) as fn(&[Input], &mut [Buffer])),
+        ("SumBuffers", 0) => Box::new(SumBuffers),
+        ("SumBuffers", 1) => Box::new(BoxedNode::new(SumBuffers)),
+        ("SumBuffers", _) => Box::new((|i: &[Input], o: &mut [Buffer]| SumBuffers.process(i, o)) as fn(&[Input], &mut [Buffer])),
+        ("Pass", 0) => Box::new(Pass),
+        ("Pass", 1) => Box::new(BoxedNode::new(Pass)),
+        ("Pass", _) => Box::new((|i: &[Input], o: &mut [Buffer]| Pass.process(i, o)) as fn(&[Input], &mut [Buffer])),
+        (_, w) => {
+            let d = Delay((0..n_out).map(|ch| Fixed::from(ring0(ch))).collect::<Vec<_>>());
+            match w {
+                0 => Box::new(d),
+                1 => Box::new(BoxedNode::new(d)),
+                _ => {
+                    let mut d = d;
+                    let f: Box<dyn FnMut(&[Input], &mut [Buffer])> = Box::new(move |i, o| d.process(i, o));
+                    Box::new(f)
+                }
+            }
+        }
+    };
+    let t = g.add_node(NodeData::new(node, sentinel_bufs(n_out)));
+    for &s in srcs.iter().rev() {
+        g.add_edge(s, t, ());
+    }
+    let mut p = Processor::<G>::with_capacity(8);
+    for call in 0..2 {
+        if let Err(e) = catch(|| p.process(&mut g, t)) {
+            return Some(("node.panic".into(), format!("{tag}: call {call} panicked: {e}")));
+        }
+        for ch in 0..n_out {
+            for tt in 0..LEN {
+                let got = g[t].buffers[ch][tt];
+                match kind {
+                    "Sum" | "SumBuffers" => {
+                        let terms: Vec<f32> = if kind == "Sum" {
+                            classes.iter().filter_map(|c| c.get(ch)).map(|&c| class_val(c, tt, call)).collect()
+                        } else {
+                            classes.iter().flat_map(|c| c.iter()).map(|&c| class_val(c, tt, call)).collect()
+                        };
+                        let ok = sums_any_order(&terms);
+                        if !ok.iter().any(|&o| o == got || (o.is_nan() && got.is_nan())) {
+                            return Some(("node.contents".into(), format!("{tag}: call {call}: output buffer {ch} sample {tt} = {got:e}, which no order of adding the input samples {terms:?} gives (candidates {ok:?})")));
+                        }
+                    }
+                    "Pass" => {
+                        let exp = match classes[0].get(ch) {
+                            Some(&c) => class_val(c, tt, call),
+                            None => continue,
+                        };
+                        if got.to_bits() != exp.to_bits() {
+                            return Some(("node.contents".into(), format!("{tag}: call {call}: output buffer {ch} sample {tt} = {got:e} (bits {:#x}), expected the input sample {exp:e} (bits {:#x}) unchanged", got.to_bits(), exp.to_bits())));
+                        }
+                    }
+                    _ => {
+                        let pos = call * LEN + tt;
+                        let exp = match classes[0].get(ch) {
+                            Some(&c) => {
+                                if pos < ring {
+                                    ring0(ch)[pos]
+                                } else {
+                                    class_val(c, (pos - ring) % LEN, (pos - ring) / LEN)
+                                }
+                            }
+                            None => continue,
+                        };
+                        if got.to_bits() != exp.to_bits() {
+                            return Some(("node.contents".into(), format!("{tag} ring of {ring} samples: call {call}: output buffer {ch} sample {tt} = {got:e} (bits {:#x}), expected {exp:e} (bits {:#x}): the sample from exactly {ring} samples earlier, unchanged", got.to_bits(), exp.to_bits())));
+                        }
+                    }
+                }
+            }
+        }
+    }
+    None
+}
+
 fn replay(v: &Value) -> Option<String> {
     let us = |k: &str| v[k].as_u64().unwrap_or(0) as usize;
     let list = |k: &str| -> Vec<usize> { v[k].as_array().map(|a| a.iter().map(|x| x.as_u64().unwrap_or(0) as usize).collect()).unwrap_or_default() };
@@ -347,6 +497,10 @@ fn replay(v: &Value) -> Option<String> {
         "delay" => delay_case(&list("lens"), us("n_in"), us("n_out"), us("wrapper")).map(|e| format!("{}: {}", e.0, e.1)),
         "signal" => signal_case(us("n_out"), us("wrapper")).map(|e| format!("{}: {}", e.0, e.1)),
         "delay_soak" => delay_case_calls(&list("lens"), 2, 2, 0, if us("calls") == 0 { 300 } else { us("calls") }).map(|e| format!("{}: {}", e.0, e.1)),
+        "contents" => {
+            let classes: Vec<Vec<u8>> = v["classes"].as_array().map(|a| a.iter().map(|b| b.as_array().map(|x| x.iter().map(|y| y.as_u64().unwrap_or(0) as u8).collect()).unwrap_or_default()).collect()).unwrap_or_default();
+            content_case(v["kind"].as_str().unwrap_or(""), us("wrapper"), &classes, us("ring")).map(|e| format!("{}: {}", e.0, e.1))
+        }
         "signal_soak" => signal_case_calls(2, 0, 300).map(|e| format!("{}: {}", e.0, e.1)),
         _ => Some("unknown case".into()),
     }
@@ -358,7 +512,7 @@ fn main() {
         let _guard_scope = guard::scoped(&v.to_string());
         ctx.finish_replay(catch(|| replay(&v)).unwrap_or_else(|p| Some(format!("panic: {p}"))));
     }
-    ctx.rule("Sum / SumBuffers: input count 0..=3 x buffers per input 0..=3 (every combination) x output buffers 0..=3 x 11 wrapper types (plain, BoxedNode, BoxedNodeSend, Box<Box<T>>, &mut T, fn pointer, Box<dyn Fn>, Box<dyn FnMut>, nested GraphNode, nested GraphNode whose inner input/output nodes have different buffer counts, nested GraphNode with one more declared input port than connected inputs) x 3 consecutive calls, the wrapped node counting its invocations (exactly one per call, also with zero output buffers); Pass: 0 or 1 input likewise; Delay: per-channel ring lengths over {1,2,63,64,65,130}^(1..=2 channels) x input buffers 0..=3 x output buffers 0..=3 x 4 wrappers x 4 calls with coded initial ring contents; signal node: Box<dyn Signal<Frame=[f32;2]>> over an instrumented source, output buffers 0..=3, 3 calls, 64 pulls per call; sources write position-coded dyadic values (sums exact in f32), outputs start as a sentinel; oracle = per-node reference function; scale probes: Sum / SumBuffers with 4..=8, 16, 33, 100, 255, 256 and 257 inputs (patterned buffer counts), plain and nested-graph wrappers; soak probes: 300 consecutive calls of delay nodes (4 ring-length sets) and of the signal node, 2100 calls of delay nodes with rings of 65535 and 65536 / 65537 samples (the write position wraps twice); distinct by configuration");
+    ctx.rule("Sum / SumBuffers: input count 0..=3 x buffers per input 0..=3 (every combination) x output buffers 0..=3 x 11 wrapper types (plain, BoxedNode, BoxedNodeSend, Box<Box<T>>, &mut T, fn pointer, Box<dyn Fn>, Box<dyn FnMut>, nested GraphNode, nested GraphNode whose inner input/output nodes have different buffer counts, nested GraphNode with one more declared input port than connected inputs) x 3 consecutive calls, the wrapped node counting its invocations (exactly one per call, also with zero output buffers); Pass: 0 or 1 input likewise; Delay: per-channel ring lengths over {1,2,63,64,65,130}^(1..=2 channels) x input buffers 0..=3 x output buffers 0..=3 x 4 wrappers x 4 calls with coded initial ring contents; signal node: Box<dyn Signal<Frame=[f32;2]>> over an instrumented source, output buffers 0..=3, 3 calls, 64 pulls per call; sources write position-coded dyadic values (sums exact in f32), outputs start as a sentinel; oracle = per-node reference function; scale probes: Sum / SumBuffers with 4..=8, 16, 33, 100, 255, 256 and 257 inputs (patterned buffer counts), plain and nested-graph wrappers; buffer contents: every assignment of 9 finite content classes (zeros, values below f32::EPSILON, subnormals, tiny with one ordinary sample, ordinary, negative, 2^100-sized, negative zeros, tiny negative) to the buffers of 1..=3 Sum inputs and 1..=3 SumBuffers buffers (oracle: the output is what SOME order of f32 additions of ALL the terms gives), and of 11 classes (also infinities and NaN payloads) to Pass and Delay (rings 1, 17, 64, 65) inputs, compared bit for bit, x 3 wrappers x 2 calls; soak probes: 300 consecutive calls of delay nodes (4 ring-length sets) and of the signal node, 2100 calls of delay nodes with rings of 65535 and 65536 / 65537 samples (the write position wraps twice); distinct by configuration");
     let mut evals = 0u64;
     for kind in [Kind::Sum, Kind::SumBuffers, Kind::Pass] {
         for n_in in 0..=(if kind == Kind::Pass { 1 } else { 3 }) {
@@ -431,6 +585,63 @@ fn main() {
             match catch(|| signal_case(n_out, w)) {
                 Ok(None) => ctx.observe(common::fnv_str(&case.to_string())),
                 Ok(Some((k, m))) => ctx.violation(&k, case, m, Some(&|| signal_case(n_out, w).map(|e| e.1))),
+                Err(p) => ctx.violation("node.panic", case, format!("panic: {p}"), None),
+            }
+        }
+    }
+    // buffer contents: every assignment of content classes to the inputs' buffers
+    {
+        let mut cases: Vec<(&str, usize, Vec<Vec<u8>>, usize)> = Vec::new();
+        // Sum: 1..=3 inputs of one buffer (classes 0..=8, finite), then two buffers per input
+        for n_in in 1..=3u32 {
+            for code in 0..9usize.pow(n_in) {
+                let cl: Vec<Vec<u8>> = (0..n_in).map(|j| vec![((code / 9usize.pow(j)) % 9) as u8]).collect();
+                for w in 0..3usize {
+                    if w == 0 || n_in < 3 {
+                        cases.push(("Sum", w, cl.clone(), 0));
+                    }
+                }
+                if n_in == 2 {
+                    let cl2: Vec<Vec<u8>> = cl.iter().enumerate().map(|(j, c)| vec![c[0], ((c[0] as usize + 3 + j) % 9) as u8]).collect();
+                    cases.push(("Sum", 0, cl2.clone(), 0));
+                    cases.push(("SumBuffers", 0, cl2, 0));
+                }
+            }
+        }
+        // SumBuffers: one input of 1..=3 buffers, and two inputs of 2 + 1 buffers
+        for nb in 1..=3u32 {
+            for code in 0..9usize.pow(nb) {
+                let bufs: Vec<u8> = (0..nb).map(|j| ((code / 9usize.pow(j)) % 9) as u8).collect();
+                for w in 0..3usize {
+                    if w == 0 || nb < 3 {
+                        cases.push(("SumBuffers", w, vec![bufs.clone()], 0));
+                    }
+                }
+                if nb == 3 {
+                    cases.push(("SumBuffers", 0, vec![bufs[..2].to_vec(), bufs[2..].to_vec()], 0));
+                }
+            }
+        }
+        // Pass / Delay: bit-for-bit, every class incl. infinities and NaN payloads, 1..=2 buffers
+        for a in 0..11u8 {
+            for b in 0..12u8 {
+                let bufs: Vec<u8> = if b == 11 { vec![a] } else { vec![a, b] };
+                for w in 0..3usize {
+                    cases.push(("Pass", w, vec![bufs.clone()], 0));
+                    for ring in [1usize, 17, 64, 65] {
+                        cases.push(("Delay", w, vec![bufs.clone()], ring));
+                    }
+                }
+            }
+        }
+        ctx.set("content_class_cases", json!(cases.len()));
+        for (kind, w, cl, ring) in &cases {
+            let case = json!({"sys":"contents","kind":kind,"wrapper":w,"classes":cl,"ring":ring});
+            let _guard_scope = guard::scoped(&case.to_string());
+            evals += 1;
+            match catch(|| content_case(kind, *w, cl, *ring)) {
+                Ok(None) => ctx.observe(common::fnv_str(&case.to_string())),
+                Ok(Some((k, m))) => ctx.violation(&k, case, m, Some(&|| content_case(kind, *w, cl, *ring).map(|e| e.1))),
                 Err(p) => ctx.violation("node.panic", case, format!("panic: {p}"), None),
             }
         }
